@@ -58,7 +58,7 @@ def run(ctx):
     obs.extra['meta'] = META
     from ..model.grids import set_wide_longitudes
     set_wide_longitudes(True)      # also datasets in the 0..360 convention / straddling 180 degrees
-    total = ctx.n(220, 15000)
+    total = ctx.n(220, 45000)
     for case, rng in ctx.cases(total):
         conv = CONVENTIONS[case % len(CONVENTIONS)]
         spec = {'case': case, 'convention': conv}
